@@ -306,6 +306,11 @@ pub fn run_cli(args: &[String], threads: Option<usize>) -> Option<CliResult> {
     let dir = std::env::temp_dir().join(format!("pvh-cli-{}-{}", std::process::id(), rand_suffix()));
     std::fs::create_dir_all(&dir).ok()?;
     let out = dir.join("out");
+    // the output files may already exist (an earlier run with the same --outfile): whatever they held,
+    // and however long it was, the run must replace it
+    let junk = "{\"stale\": \"".to_string() + &"x".repeat(200_000) + "\"}\n";
+    std::fs::write(out.with_extension("json"), &junk).ok()?;
+    std::fs::write(out.with_extension("svg"), &junk).ok()?;
     let mut cmd = std::process::Command::new(packing_bin());
     cmd.arg("--outfile").arg(&out);
     for a in args {
@@ -316,8 +321,10 @@ pub fn run_cli(args: &[String], threads: Option<usize>) -> Option<CliResult> {
     }
     cmd.env_remove("RUST_LOG");
     let o = cmd.output().ok()?;
-    let json = std::fs::read_to_string(out.with_extension("json")).ok();
-    let svg = std::fs::read_to_string(out.with_extension("svg")).ok();
+    // a file still holding the stale content was not written by this run
+    let fresh = |t: String| if t == junk { None } else { Some(t) };
+    let json = std::fs::read_to_string(out.with_extension("json")).ok().and_then(fresh);
+    let svg = std::fs::read_to_string(out.with_extension("svg")).ok().and_then(fresh);
     let _ = std::fs::remove_dir_all(&dir);
     Some(CliResult { status: o.status.code(), stderr: String::from_utf8_lossy(&o.stderr).to_string(), json, svg })
 }
